@@ -497,6 +497,22 @@ def check_scenario(sc, obs, add):
                 break
             if op['op'] in ('imap', 'imap_unordered') and op.get('consume', 'all') != 'all' and op.get('abandon') != 'close':
                 lazy_open = True
+    # a worker id is held by one live instance at a time, over the whole history: the spans in which two instances of one id are inside
+    # user functions (first entry to last return) do not overlap
+    spans = {}
+    for c in obs.get('calls', []):
+        if str(c[2]).startswith('Worker-'):
+            a, b = spans.get(c[3], (c[6], c[6]))[0:2] if c[3] in spans else (c[6], c[6])
+            spans[c[3]] = (min(a, c[6]), max(b, c[7] if c[7] is not None else c[6]), c[2])
+    by_id = collections.defaultdict(list)
+    for tok, (a, b, role) in spans.items():
+        by_id[role].append((a, b, tok))
+    for role, ivs in by_id.items():
+        ivs.sort()
+        for (a0, a1, ta), (b0, b1, tb) in zip(ivs, ivs[1:]):
+            if b0 < a1:
+                add('C13', 'one_live_instance_per_id', {'id': role, 'instances': [ta, tb], 'spans': [(a0, a1), (b0, b1)], 'over': 'the whole history'})
+                break
     # operations that pass their own function objects (groups of operations share theirs): what runs for an operation is what it passed
     for c in obs.get('calls', []):
         # (tasks: a deferred worker_exit of workers that are being retired is theirs, whichever call it runs during)
